@@ -31,6 +31,10 @@ type vfCaseC14 struct {
 	After   []vfReq // unrelated requests behind the closes
 	Release []int
 	WLen    int // bytes per WRITE
+	// the client ends its sending direction right behind the pipeline instead of waiting for the replies
+	// (seed C14-e): everything received before the end is still served, in order, before anything is swept;
+	// replies may be lost on the way out, so only the handler / file side is judged
+	EarlyHangup bool `json:",omitempty"`
 }
 
 func vfGenC14(t *rapid.T) vfCaseC14 {
@@ -83,6 +87,7 @@ func vfGenC14(t *rapid.T) vfCaseC14 {
 		c.After = append(c.After, vfGenReq(t, []string{"STAT", "LSTAT", "REALPATH", "READLINK", "OPENDIR", "MKDIR"}))
 	}
 	c.Release = rapid.SliceOfN(rapid.IntRange(0, 15), 1, 24).Draw(t, "release")
+	c.EarlyHangup = rapid.IntRange(0, 3).Draw(t, "earlyhangup") == 0
 	return c
 }
 
@@ -174,6 +179,18 @@ func vfRunC14(ctx *vfCtx, c vfCaseC14) {
 		ps.reqs = append(ps.reqs, p)
 	}
 	ps.srv.Send(pkts...)
+	if c.EarlyHangup {
+		ps.srv.link.C2S.closeWrite()
+		ctx.Class("early-hangup")
+	}
+	served := func() bool {
+		select {
+		case <-ps.srv.done:
+			return true
+		default:
+			return false
+		}
+	}
 
 	parkedAtClose := 0
 	if ps.srv.h != nil {
@@ -191,10 +208,13 @@ func vfRunC14(ctx *vfCtx, c vfCaseC14) {
 					ctx.Failf("C14/closed-while-parked/"+kind, "object #%d (%s) has been closed while %d of its reads/writes are still in progress\nevents: %s", o.id, o.kind, busy, strings.Join(h.logCopy(), "; "))
 				}
 			}
-			if ps.srv.link.S2C.Frames() >= len(ps.reqs) {
+			if ps.srv.link.S2C.Frames() >= len(ps.reqs) || (c.EarlyHangup && served()) {
 				break
 			}
 			if len(parked) == 0 {
+				if c.EarlyHangup {
+					ctx.Failf("C14/serve-hangs/"+kind, "the stream has ended and nothing is in progress, yet Serve does not return\n%s", vfDumpRelevant())
+				}
 				pk, _, _, _ := ps.srv.Replies()
 				ctx.Failf("C14/missing-replies/"+kind, "server idle after %d of %d responses\n%s", len(pk), len(ps.reqs), vfExchangeDump(ps.reqs, pk))
 			}
@@ -207,15 +227,24 @@ func vfRunC14(ctx *vfCtx, c vfCaseC14) {
 		}
 		h.ReleaseAll()
 	}
-	if !ps.srv.AwaitReplies(ctx, len(ps.reqs)) {
+	if c.EarlyHangup {
+		if !vfAwait(ctx, ps.srv.done, "Serve to return") {
+			ctx.Failf("C14/serve-hangs/"+kind, "Serve never returns after the peer hung up behind its pipeline\n%s", vfDumpRelevant())
+		}
+	} else if !ps.srv.AwaitReplies(ctx, len(ps.reqs)) {
 		pk, _, _, _ := ps.srv.Replies()
 		ctx.Failf("C14/missing-replies/"+kind, "server idle after %d of %d responses\n%s", len(pk), len(ps.reqs), vfExchangeDump(ps.reqs, pk))
 	}
 	vfSettle(ctx)
-	vfCheckReplies(ctx, ps, kind)
+	if !c.EarlyHangup {
+		vfCheckReplies(ctx, ps, kind)
+	}
 	// every READ/WRITE (all of them precede their handle's CLOSE) must have succeeded
 	pk, _, _, _ := ps.srv.Replies()
-	for i := firstBurst; i < firstBurst+len(c.Burst); i++ {
+	for i := firstBurst; i < firstBurst+len(c.Burst) && i < len(pk); i++ {
+		if c.EarlyHangup && pk[i].ID != ps.reqs[i].ID {
+			break
+		}
 		req, rep := ps.reqs[i], pk[i]
 		if it := c.Burst[i-firstBurst]; it.Fail && ps.srv.h != nil && !it.Close && it.Cmd == nil {
 			// the injected handler failure is this request's own answer and nobody else's business
@@ -272,7 +301,9 @@ func vfRunC14(ctx *vfCtx, c vfCaseC14) {
 			ctx.Failf("C14/io-overlaps-close/"+kind, "%s\nevents: %s", desc, strings.Join(ps.srv.h.logCopy(), "; "))
 		}
 	}
-	ps.srv.Hangup(ctx, "C14/"+kind)
+	if !c.EarlyHangup {
+		ps.srv.Hangup(ctx, "C14/"+kind)
+	}
 	vfCheckNoLeak(ctx, "C14/leak/"+kind, baseline)
 	if rwBeforeClose >= 2 && sawClose && (ps.srv.h == nil || parkedAtClose >= 1) {
 		ctx.NonTrivial()
